@@ -12,11 +12,69 @@ package cppki
 //@ ghost var okKey uint64
 //@ ghost var okPred uint64
 
-//@ # payload validation (C33) - assumed here: no effect, and an accepted payload has a quorum of at least one
-//@ func (*TRC).Validate
+//@ # ---- C33: payload validation. Necessary conditions of acceptance, in the order of the statement.
+//@ macro idOK(id) = ((id).ISD != 0 && 1 <= (id).Base && (id).Base <= (id).Serial)
+//@ func (TRCID).Validate
+//@   props C33
+//@   modifies nothing
+//@   ensures (result == nil) == idOK(id)
+//@ func (Validity).Validate
+//@   props C33
+//@   modifies nothing
+//@   ensures (result == nil) == (v.NotAfter.ext > v.NotBefore.ext)
+//@ func (Validity).Contains
+//@   props C33
+//@   modifies nothing
+//@   ensures result == (v.NotBefore.ext <= t.ext && t.ext <= v.NotAfter.ext)
+//@ func (Validity).Covers
+//@   props C33
+//@   modifies nothing
+//@   ensures result == (v.NotBefore.ext <= other.NotBefore.ext && other.NotAfter.ext <= v.NotAfter.ext)
+
+//@ # AS lists: non-empty, no wildcard, no duplicate
+//@ macro asSeqOK(s) = (len(s) > 0 && (forall a int :: 0 <= a && a < len(s) ==> s[a] != 0) && (forall a int :: forall b int :: 0 <= a && a < b && b < len(s) ==> s[a] != s[b]))
+//@ func validateASSequence
+//@   props C33
+//@   modifies nothing
+//@   loop 1 invariant 0 <= (rangeindex+1) && (rangeindex+1) <= len(ases) && len(ases) > 0
+//@   loop 1 invariant forall a int :: 0 <= a && a < (rangeindex+1) ==> ases[a] != 0
+//@   loop 1 invariant forall a int :: forall b int :: 0 <= a && a < (rangeindex+1) && a < b && b < len(ases) ==> ases[a] != ases[b]
+//@   # (inside the body of a range loop the current index is rangeindex+1: the header value is the previous index)
+//@   loop 2 invariant 0 <= (rangeindex+1) && (rangeindex+1) < len(ases) && (rangeindex+1) < j && j <= len(ases) && as == ases[rangeindex+1] && as != 0 && len(ases) > 0
+//@   loop 2 invariant forall a int :: 0 <= a && a < (rangeindex+1) ==> ases[a] != 0
+//@   loop 2 invariant forall a int :: forall b int :: 0 <= a && a < (rangeindex+1) && a < b && b < len(ases) ==> ases[a] != ases[b]
+//@   loop 2 invariant forall b int :: (rangeindex+1) < b && b < j ==> ases[rangeindex+1] != ases[b]
+//@   ensures result == nil ==> asSeqOK(ases)
+
+//@ # certificate inspection is not interpreted (x509, ASN.1 names): no effect on the state
+//@ func findIA
 //@   trusted
 //@   modifies nothing
-//@   ensures result == nil ==> trc.Quorum >= 1
+//@ func equalName
+//@   trusted
+//@   modifies nothing
+//@ func uniqueSubject
+//@   trusted
+//@   modifies nothing
+//@ extern (*math/big.Int).Cmp
+//@   modifies nothing
+
+//@ # every certificate's validity covers the validity of the TRC
+//@ macro certCovers(trc, i) = (trc.Certificates[i].NotBefore.ext <= trc.Validity.NotBefore.ext && trc.Validity.NotAfter.ext <= trc.Certificates[i].NotAfter.ext)
+//@ func (*TRC).Validate
+//@   props C33 C35
+//@   requires trc != nil && forall i int :: 0 <= i && i < len(trc.Certificates) ==> trc.Certificates[i] != nil
+//@   modifies nothing
+//@   loop 1 invariant 0 <= (rangeindex+1) && (rangeindex+1) <= len(trc.Certificates)
+//@   loop 1 invariant forall c int :: 0 <= c && c < (rangeindex+1) ==> certCovers(trc, c)
+//@   loop 2 invariant 0 <= (rangeindex+1) && (rangeindex+1) <= len(trc.Certificates)
+//@   loop 3 invariant 0 <= (rangeindex+1) && (rangeindex+1) < len(trc.Certificates) && (rangeindex+1) < j && j <= len(trc.Certificates) && a == trc.Certificates[rangeindex+1]
+//@   loop 4 invariant 0 <= (rangeindex+1) && (rangeindex+1) <= 3
+//@   ensures result == nil ==> trc.Version == 1 && idOK(trc.ID) && trc.Validity.NotAfter.ext > trc.Validity.NotBefore.ext
+//@   ensures result == nil && trc.ID.Base == trc.ID.Serial ==> trc.GracePeriod == 0 && len(trc.Votes) == 0
+//@   ensures result == nil ==> 1 <= trc.Quorum && trc.Quorum <= 255
+//@   ensures result == nil ==> asSeqOK(trc.CoreASes) && asSeqOK(trc.AuthoritativeASes)
+//@   ensures result == nil ==> forall c int :: 0 <= c && c < len(trc.Certificates) ==> certCovers(trc, c)
 //@ func classifyCerts
 //@   trusted
 //@   modifies nothing
